@@ -20,11 +20,17 @@ Inductive tsarg := TsOmit | TsNone | TsAt (n : nat).
 (* TimestampingStreamResult.status (real.py): pop the keyword, stamp when it is missing or None *)
 Definition stamp (a : tsarg) : tstamp := match a with TsAt n => TOwn n | _ => TNow end.
 
+(* the route code of a stream event as it travels: (the route code make_tests assigned to the worker's
+   sub-suite, the event's own route code); StreamToQueue.route_code joins the two with "/" where both exist.
+   Route codes of different sub-suites may be EQUAL (for example all None): they do not identify a worker. *)
+Definition rcode := (option nat * option nat)%type.
+
 Inductive qitem :=
 | QToken (w : nat)                                   (* classic: the finished sub-suite *)
 | QStart (w : nat) | QStop (w : nat)                 (* stream: startTestRun / stopTestRun of worker w's StreamToQueue *)
-| QStatus (w : nat) (id st : nat) (own : option nat) (ts : tstamp).
-                                 (* stream: a status event of worker w: test id, status, its own route code, its timestamp *)
+| QStatus (w : nat) (id st : nat) (own : rcode) (ts : tstamp).
+                                 (* stream: a status event put by worker w (w = WHICH StreamToQueue object, not a route code):
+                                    test id, status, route code, timestamp *)
 
 Inductive cev :=
 | CG (e : gev)                   (* classic: semaphore / caller's-result events, as in Tfr.v *)
@@ -33,8 +39,8 @@ Inductive cev :=
 | CGet (q : qitem)
 | CGetIntr                       (* main: an interrupt arrives in queue.get() *)
 | CJoin (w : nat)
-| CStatus (w : nat) (id st : nat) (own : option nat) (ts : tstamp) (raised : bool).
-                                 (* stream: main calls result.status(route = w[/own], timestamp) *)
+| CStatus (w : nat) (id st : nat) (own : rcode) (ts : tstamp) (raised : bool).
+                                 (* stream: main passes an event dequeued from worker w to result.status(route_code, timestamp) *)
 
 Definition br_id := 999.           (* the test id 'broken-runner' / "broken-runner-'<route>'" *)
 Definition st_inprogress := 0.
@@ -249,6 +255,7 @@ Inductive sitem := SEv (id st : nat) (own : option nat) (a : tsarg) | SRaise.
 
 Record sinput := {
   si_suites : list (list sitem);   (* per sub-suite: the status events its run(result) emits (SRaise = run() raises there) *)
+  si_routes : list (option nat);   (* per sub-suite: the route code make_tests yields with it (None, or a code; codes may repeat) *)
   si_mt_raise : option nat;
   si_get_intr : option nat;
   si_main_faults : list nat;       (* which of main's result.status calls raise *)
@@ -257,14 +264,18 @@ Record sinput := {
 
 (* everything worker w puts on the queue: startTestRun, its events up to a raise, the broken-runner
    test if what was raised is an Exception, stopTestRun *)
-Fixpoint emits (w : nat) (base : bool) (s : list sitem) : list qitem :=
+Definition sroute (i : sinput) (w : nat) : option nat := nth w (si_routes i) None.
+
+(* StreamToQueue.route_code (real.py): the event's own route code under the sub-suite's, joined with "/" where
+   both exist; either may be None (the pair says which). *)
+Fixpoint emits (rt : option nat) (w : nat) (base : bool) (s : list sitem) : list qitem :=
   match s with
   | [] => []
-  | SEv id st own a :: r => QStatus w id st own (stamp a) :: emits w base r
-  | SRaise :: _ => if base then [] else [QStatus w br_id st_inprogress None TNow; QStatus w br_id st_fail None TNow]
+  | SEv id st own a :: r => QStatus w id st (rt, own) (stamp a) :: emits rt w base r
+  | SRaise :: _ => if base then [] else [QStatus w br_id st_inprogress (rt, None) TNow; QStatus w br_id st_fail (rt, None) TNow]
   end.
-Definition worker_puts (w : nat) (base : bool) (s : list sitem) : list qitem :=
-  QStart w :: emits w base s ++ [QStop w].
+Definition worker_puts (rt : option nat) (w : nat) (base : bool) (s : list sitem) : list qitem :=
+  QStart w :: emits rt w base s ++ [QStop w].
 
 Inductive smain :=
 | SMSpawn (k : nat) | SMGet | SMStatus (q : qitem) | SMJoin (w : nat) | SMDone.
@@ -309,7 +320,7 @@ Definition sstep_main (i : sinput) (c : sconf) : option sconf :=
       | None => None
       | Some s =>
           let c' := {| s_log := slog c 0 (CSpawn k); s_queue := s_queue c; s_main := s_main c;
-                       s_unreaped := s_unreaped c ++ [k]; s_workers := s_workers c ++ [worker_puts k (si_base i) s];
+                       s_unreaped := s_unreaped c ++ [k]; s_workers := s_workers c ++ [worker_puts (sroute i k) k (si_base i) s];
                        s_gets := s_gets c; s_mcalls := s_mcalls c; s_raised := s_raised c; s_stops := s_stops c;
                        s_live := s_live c |} in
           Some (safter_spawn i c' (S k))
